@@ -14,7 +14,7 @@ RULE = ('Hypothesis-generated edit scripts: Text | Add(items) | Del(items) | Hi(
         'letters, blanks, newlines/blank lines, the delimiter characters + - ~ = < > and the escape pairs \\{ \\} \\+ \\- \\~ \\> \\=; '
         'optionally one or two unmatched markers (opener, closer, lone ~>) of kinds not otherwise left open. Oracle: Python string '
         'model of accept/reject on the whole string and on a sub-range covering whole top-level items, idempotence, and (sampled) '
-        'CLI -a/-r vs. rendering of the model text, and (single-line scripts over plain words) conversion through the library WITH the accept/reject option vs. conversion of the model text, html/latex/fodt, white space normalised. Non-trivial: >=2 marks with one nested, adjacent to another mark or spanning a '
+        'CLI -a/-r vs. rendering of the model text, and (single-line scripts over plain words) conversion through the library WITH the accept/reject option vs. conversion of the model text, html/latex/fodt, white space normalised. Also: a run of 990..1500 unmatched openers in front of the script. Non-trivial: >=2 marks with one nested, adjacent to another mark or spanning a '
         'blank line; distinct by serialised text+operation+range.')
 ASSUMPTIONS = ['marks nest only inside additions/deletions/highlights (as in the statement); text never contains a bare { or }',
                'the model is the Python code in props/c12.py (independent of critic_markup.c)',
